@@ -82,12 +82,14 @@ def multiply(
     )
 
     # The compiled kernel writes each exponent as one byte of a UTF-8 key
-    # and only handles a few coefficient dtypes of exactly the output dtype.
+    # into a 256 byte buffer (terminating NUL included) and only handles a
+    # few coefficient dtypes of exactly the output dtype.
     compiled = (
         out_.dtype in COMPILED_DTYPES
         and numpy.result_type(x1.dtype, x2.dtype) == out_.dtype
         and int(numpy.max(x1.exponents)) + int(numpy.max(x2.exponents)) + x1.KEY_OFFSET
         < 128
+        and x1.exponents.shape[1] < 256
     )
     if compiled:
         numpoly.cmultiply(
